@@ -179,7 +179,10 @@ Theorem C18_item_current_queue_partial : forall g p dflt, wf_graph g = true -> p
 Proof. exact item_current_queue. Qed.
 Print Assumptions C18_item_current_queue_partial.
 (* accepted = queues of the chain of the queue submitted to, plus (synchronous submissions) whatever the submitting context
-   accepted, plus queues whose drain lock the executing thread holds; assert_queue_not accepts exactly the others *)
+   accepted, plus queues whose drain lock the executing thread holds; assert_queue_not accepts exactly the others.
+   NOTE: `st` (the lock word) and `tid` are FREE here, so the third disjunct is unconstrained by this theorem.  It is tied down in
+   Properties_C18_locks.v: under lock_discipline the disjunct disappears, and for serial hierarchies under dispatch_async the
+   discipline is proved from the protocol model (C03 hlane) with the lock words of the reachable state. *)
 Theorem C18_item_assert_queue_partial : forall g p st tid q r, wf_graph g = true -> path_top p <> 0 ->
   lookup g q = Some r -> valid_assert_type r = true ->
   (assert_queue g st tid (frames_of_path g p) q = APass <->
@@ -190,7 +193,9 @@ Theorem C18_item_assert_queue_partial : forall g p st tid q r, wf_graph g = true
         match path_ctx p with Some c => find_queue g c q = true | None => False end)).
 Proof. exact item_assert_queue. Qed.
 Print Assumptions C18_item_assert_queue_partial.
-(* a block run on behalf of a sync waiter by the thread a queue is bound to sees what the waiter itself would see *)
+(* a block run on behalf of a sync waiter by the thread a queue is bound to sees what the waiter itself would see.
+   DEFINITIONAL in the model (both sides are {top; ctx.cq :: ctx.frames}; the proof is reflexivity): the content is in frames_of_path
+   assigning push_and_rebase(dc_other = top, dsc_dtf) to that path, which only the correspondence (the "sync-remote" probes) ties *)
 Theorem C18_remote_same_as_self : forall g top ctx runner,
   frames_of_path g (PSyncRemote top ctx runner) = frames_of_path g (PSync top ctx).
 Proof. exact remote_same_as_self. Qed.
